@@ -237,6 +237,32 @@ func (b *Builder) global(v *types.Var) *Term {
 				if allConst {
 					return &Term{Op: "list", Name: b.P.typeStr(v.Type()), Args: elts}
 				}
+				// a never-written list of other package-level values that are themselves rendered by
+				// value (a table of object identifiers given by name)
+				if len(cl.Elts) > 0 && len(cl.Elts) <= 32 && b.P.neverWritten(v) {
+					var byVal []*Term
+					for _, e := range cl.Elts {
+						id, isId := ast.Unparen(e).(*ast.Ident)
+						if !isId {
+							byVal = nil
+							break
+						}
+						ev, isVar := pk.TypesInfo.Uses[id].(*types.Var)
+						if !isVar || !isPkgLevel(ev) || ev == v {
+							byVal = nil
+							break
+						}
+						et := b.global(ev)
+						if et.Op != "list" {
+							byVal = nil
+							break
+						}
+						byVal = append(byVal, et)
+					}
+					if byVal != nil {
+						return &Term{Op: "list", Name: b.P.typeStr(v.Type()), Args: byVal}
+					}
+				}
 				nonNilGlobals[name] = true
 				// a never-written table of rows with constant fields is rendered by value
 				// (a loop over it unrolls like the sequence of checks it replaces)
